@@ -113,7 +113,7 @@ func (st *c02State) pooled(kind string, coder int, data []byte) string {
 	}
 	cap0 := cap(pm.Options())
 	in := append([]byte{}, data...)
-	r := watched(func() (int, error) { return pm.UnmarshalWithDecoder(cd, in) }, 3*time.Second)
+	r := watched(func() (int, error) { return pm.UnmarshalWithDecoder(cd, in) }, 10*time.Second)
 	if r.hang {
 		st.hangs++
 		return fmt.Sprintf("(%d, %d, DHang, (-1), true)", coder, cap0)
